@@ -379,7 +379,11 @@ func dischargeAll(obs []*Obligation, timeout time.Duration, seed int, outDir str
 		go func(ob *Obligation) {
 			defer wg.Done()
 			defer func() { <-sem }()
-			st, solver, out, secs := race(ob.Script, timeout, seed)
+			to := timeout
+			if ob.ExpectSat && to > 6*time.Second {
+				to = 6 * time.Second
+			}
+			st, solver, out, secs := race(ob.Script, to, seed)
 			ob.Result, ob.Solver, ob.Seconds = st, solver, secs
 			if st == "sat" || st == "error" {
 				ob.Model = out
